@@ -49,13 +49,69 @@ PROPS = {
     "C14": dict(mode="model", profile="lfuda", **tiers(2000, 60, 40000, 120),
                 rule=GEN_RULE + "non-trivial = an aging point at which some but not all residents are idle and an entry older by insertion than an idle one was used more recently",
                 needs=["aging_points_mixed_older_entry_fresher"]),
-    "C15": dict(mode="model", profile="rr", **tiers(2000, 60, 40000, 120),
-                rule=GEN_RULE + "non-trivial = at least two evictions and at least one erase of a live key in the same history",
+    "C15": dict(mode="model", profile="rr", profiles=[("rr", None, "model", 1.0)] * 3 + [("rrstats", None, "stats-rr", 0.02)],
+                **tiers(2000, 60, 40000, 120),
+                rule=GEN_RULE + "non-trivial = (model mode) at least two evictions and at least one erase of a live key in the same history; "
+                "(stats-rr mode, 1 worker in 4) a run of 400*capacity evicting inserts with at least one interleaved erase+refill, victim-rank histogram checked",
                 needs=["evictions"]),
     "C16": dict(mode="model", profile="ttlfull", **tiers(2000, 60, 40000, 120),
                 rule=GEN_RULE + "non-trivial = an insert of a new key into a full tlru/utlru cache holding at least one live and at least one expired resident",
                 needs=["inserts_into_full_with_expired_and_live"]),
+    "C18": dict(mode="twin-range", profile="range", **tiers(1500, 60, 40000, 120),
+                rule=GEN_RULE + "every range call is executed as one call on instance A and as the element-wise single calls on instance B at a frozen clock; "
+                "non-trivial = a range with a duplicate key, or mixed successes and failures, or more new keys than free slots",
+                needs=["twin_range_with_duplicate", "twin_range_mixed_success", "range_insert_with_eviction"]),
+    "C19": dict(mode="twin-noop", profile="noop", **tiers(1500, 60, 40000, 120),
+                rule=GEN_RULE + "instance B additionally executes generated no-effect calls (peek lookups, missing lookups, rejected inserts, erases of absent keys; decided by the model at run time); "
+                "non-trivial = at least one spliced call followed by at least one eviction or aging point",
+                needs=["splices_executed", "evictions_after_splice"]),
+    "C20": dict(mode="twin-clear", profile="clear", **tiers(1500, 60, 40000, 120),
+                rule=GEN_RULE + "instance B is constructed fresh (same capacity, currently configured TTL) at the last clear() of the history and both run the continuation; "
+                "non-trivial = clear() on a non-empty container and a continuation with at least one eviction (utlru) or expiry",
+                needs=["twin_created_after_clear", "evictions_after_clear"]),
     "C17": dict(mode="model", profile="clean", **tiers(2000, 60, 40000, 120),
                 rule=GEN_RULE + "non-trivial = clean_expired_values() called with at least one live and at least one expired resident",
                 needs=["clean_with_live_and_expired"]),
 }
+
+# ---- text for MANIFEST.json ---------------------------------------------------------------------------
+HOOK_COMMITS = []
+_E1 = "E1 seq"
+_NOTE_MODEL = ("trusted: the reference model in src/model.hpp + src/engine.cpp (written from the property statements), the adapters, "
+               "the link-time replaced clock/random_device, g++ sanitizers; bounded: capacity <= 33, universe <= capacity+3, histories <= 120 operations")
+_NOTE_TWIN = ("trusted: the adapters and the comparison code; the oracle is a second real instance, not the model (the model only resolves clock targets "
+              "and decides which spliced calls are no-effect); bounded as the model checks")
+
+
+def _mt(engine, technique, level, note, ref):
+    return {"engine": engine, "technique": technique, "level": level, "note": note, "ref": ref}
+
+
+_PBT = "property-based testing (rapidcheck, generated operation histories) against "
+MANIFEST_TEXT = {
+    "C01": _mt(_E1, _PBT + "a reference model with self-describing values; thorough adds libFuzzer on the same oracle",
+               "bounded exploration: every lookup result in generated histories over all ten containers is compared with the model's latest-write map; no absence proof", _NOTE_MODEL, "DESIGN.md 5/C01"),
+    "C02": _mt(_E1, _PBT + "model invariants on size()/empty()/capacity() after every step", "bounded exploration of size trajectories incl. expiry and clock advances", _NOTE_MODEL, "DESIGN.md 5/C02"),
+    "C03": _mt(_E1, _PBT + "the model's permitted-loss rule (peek scan of all live keys after every call)", "bounded exploration; every loss of a live key must be one the statement permits", _NOTE_MODEL, "DESIGN.md 5/C03"),
+    "C04": _mt(_E1, _PBT + "the model's deadlines on a harness-owned clock (exact-deadline and +-1 ns probes)", "bounded exploration with constructed boundary instants", _NOTE_MODEL, "DESIGN.md 5/C04"),
+    "C05": _mt(_E1, _PBT + "the model's deadlines on a harness-owned clock (deadline-1 ns probes, deadline-moving writes)", "bounded exploration with constructed boundary instants", _NOTE_MODEL, "DESIGN.md 5/C05"),
+    "C09": _mt(_E1, _PBT + "the model's allow-mode table; insert_range decided by enumerating every outcome the single inserts permit", "bounded exploration over key histories x allow modes", _NOTE_MODEL, "DESIGN.md 5/C09"),
+    "C10": _mt(_E1, _PBT + "the model's recency stamps (victim must be the least recently used live key)", "bounded exploration of recency-shuffling histories on lru/tlru/utlru", _NOTE_MODEL, "DESIGN.md 5/C10"),
+    "C11": _mt(_E1, _PBT + "the model's use counts (peeked after every step) and minimal-count victim rule", "bounded exploration on lfu (and lfuda between aging points)", _NOTE_MODEL, "DESIGN.md 5/C11"),
+    "C12": _mt(_E1, _PBT + "the model's insertion stamps (victim must be the earliest inserted)", "bounded exploration on fifo incl. iterator-pair overloads", _NOTE_MODEL, "DESIGN.md 5/C12"),
+    "C13": _mt(_E1, _PBT + "the model's recency stamps (victim must be the most recently used)", "bounded exploration on mru", _NOTE_MODEL, "DESIGN.md 5/C13"),
+    "C14": _mt(_E1, _PBT + "the model's aging rule on a harness-owned clock (idle boundary and +-1 ns)", "bounded exploration on lfuda with dyadic ratios", _NOTE_MODEL, "DESIGN.md 5/C14"),
+    "C15": _mt(_E1, _PBT + "the model (one prior resident per eviction) plus a victim-rank histogram over 400*capacity evictions per generated seed", "bounded exploration; spread tested, uniformity only reported", _NOTE_MODEL, "DESIGN.md 5/C15"),
+    "C16": _mt(_E1, _PBT + "the model: no live key lost while an expired entry is resident", "bounded exploration of full caches with live/expired mixes, update_ttl shorter/longer", _NOTE_MODEL, "DESIGN.md 5/C16"),
+    "C17": _mt(_E1, _PBT + "the model: return value = size drop = resident expired entries; no live loss", "bounded exploration incl. deadline order != write order", _NOTE_MODEL, "DESIGN.md 5/C17"),
+    "C18": _mt(_E1, "differential property-based testing: range call on instance A vs element-wise single calls on twin instance B at a frozen clock, all later results compared",
+               "bounded exploration of range contents (empty, duplicates, overflow, mixed) and continuations", _NOTE_TWIN, "DESIGN.md 5/C18"),
+    "C19": _mt(_E1, "metamorphic property-based testing: history H on instance A vs H with generated no-effect calls spliced in on twin B, shared results compared",
+               "bounded exploration; what the statement allows to differ (size, clean count, results addressed to expired keys) is not compared", _NOTE_TWIN, "DESIGN.md 5/C19"),
+    "C20": _mt(_E1, "differential property-based testing: instance after clear() vs freshly constructed twin, same generated continuation", "bounded exploration on utlru and ut_map", _NOTE_TWIN, "DESIGN.md 5/C20"),
+}
+NOT_APPLICABLE = [
+    {"property_id": "C06", "reason": "check under construction in this round (schedule engine E3); will be claimed once built"},
+    {"property_id": "C07", "reason": "check under construction in this round (TSan engine E4); will be claimed once built"},
+    {"property_id": "C08", "reason": "check under construction in this round (libFuzzer + sanitizers); will be claimed once built"},
+]
